@@ -210,8 +210,13 @@ class Monitors:
             if per and not running and not any(b.queues.values()) and not b.unacked and not inst.td.pending_requests and not inst.td.orphaned_responses:
                 left = [t for t in b.timers if not inst.is_heartbeat(t) and getattr(t[2], "__name__", "") not in ("handle_orphaned_responses",)
                         and "heartbeat" not in getattr(t[2], "__qualname__", "")]
-                if left:
-                    self.fail("C03 %d timer(s) still armed after every execution has ended: %s" % (len(left), [getattr(t[2], "__qualname__", repr(t[2]))[-60:] for t in left]))
+                delay = [t for t in left if getattr(t[2], "__qualname__", "").endswith("_delegate")]
+                other = [t for t in left if t not in delay]
+                if other:
+                    self.fail("C03 %d timer(s) still armed after every execution has ended: %s" % (len(other), [getattr(t[2], "__qualname__", repr(t[2]))[-60:] for t in other]))
+                elif delay:
+                    # known finding: the retry-delay timer of a retried state cannot be cancelled (the engine keeps no handle)
+                    self.fail("C03 [retry-delay-timer] %d retry-delay timer(s) of a terminated Branch still armed after every execution has ended" % len(delay))
 
     def check_history(self, arn, hist, rec, sts, term):
         prev_ts = None
